@@ -170,6 +170,48 @@ def main():
                        "raise_paths": r.get("raise_paths"), "wall_s": r["wall_s"],
                        "obligations": len(r["obligations"])})
 
+    # ---------------------------------------------------------------- bounded stand-in / CPython cross-check
+    # the same contract text evaluated natively on solver-generated inputs: (a) for every contract that left the
+    # verified subset on this tree (UNSUPPORTED / RE-ANCHOR) it is the bounded stand-in; (b) for the others it is
+    # the engine cross-check.  Never counted into `discharged`.
+    degraded = [r for r in results if r["status"] == "unsupported"]
+    n_samp = int(os.environ.get("PYVC_SAMPLES", "0")) or (60 if tier == "quick" else 600)
+    sel_s = []
+    for r in results:
+        c = next(x for x in sidecars[r["sidecar"]] if x.name == r["contract"])
+        if not getattr(c, "native", True):
+            continue
+        sel_s.append((r["sidecar"], r["contract"]))
+    bounded = []
+    if sel_s:
+        n_deg = n_samp * 5
+        deg_names = {(r["sidecar"], r["contract"]) for r in degraded}
+        norm = [x for x in sel_s if x not in deg_names]
+        outs = pyrun.sample(norm, n_samp, seed, a.j) + pyrun.sample([x for x in sel_s if x in deg_names], n_deg, seed, a.j)
+        for o in outs:
+            isdeg = (o["sidecar"], o["contract"]) in deg_names
+            bounded.append({"contract": o["contract"], "role": "bounded stand-in" if isdeg else "cross-check",
+                            "bound": o.get("bound"), "inputs_run": o.get("satisfying_requires", 0),
+                            "distinct": o.get("distinct", 0), "failures": len(o.get("failures", [])),
+                            "errors": o.get("errors", [])[:2]})
+            rr = next(r for r in results if r["contract"] == o["contract"] and r["sidecar"] == o["sidecar"])
+            for f in o.get("failures", [])[:2]:
+                ridx += 1
+                fc = f["failed"][0]
+                ref = {"obligation": f"{o['contract']}/native:{fc.get('kind')}#{fc.get('index', 0)}",
+                       "kind": "native-" + str(fc.get("kind")), "text": fc.get("clause", ""),
+                       "inputs": f["inputs"], "model": "input found by the bounded stand-in (native evaluation)",
+                       "path": None}
+                path, reproduced = native_replay(prop, rr, ref, ridx)
+                status["violations"].append((ref["obligation"], path, reproduced, ref["text"]))
+            if isdeg and o.get("satisfying_requires", 0) == 0:
+                status["errors"].append(f"{o['contract']}: degraded to its bounded stand-in but no input could be run: "
+                                        f"{o.get('errors')}")
+    # a degraded function with a passing stand-in is not an alarm; drop it from `undecided`
+    status["undecided"] = [u for u in status["undecided"] if "UNSUPPORTED" not in u]
+    for r in degraded:
+        print(f"DEGRADED {r['contract']}: {r.get('unsupported')} -> bounded stand-in")
+
     # ---------------------------------------------------------------- extra parts (X tables, B bounded, effect analyses)
     extras = []
     for ex in plan.get("extras", []):
@@ -224,6 +266,8 @@ def main():
         "back_ends": backends,
         "samples": samples,
         "extras": extras,
+        "bounded_checks": bounded,
+        "degraded_functions": [r["contract"] for r in degraded],
         "explanation": plan.get("explanation", ""),
         "undecided": status["undecided"][:50],
         "known_findings_confirmed": [k.get("id") for k, _ in status["known"]],
@@ -278,6 +322,11 @@ def main():
             print(f"UNDECIDED obligation={u}")
         return 2
     if n_ob == 0 and not extras:
+        ran = sum(b["inputs_run"] for b in bounded if b["role"] == "bounded stand-in")
+        if degraded and ran > 0:
+            print(f"note: every carrier function left the verified subset on this tree; the property was only "
+                  f"checked by the bounded stand-in ({ran} inputs) - level achieved on this run: bounded")
+            return 0
         print("CHECKER-ERROR zero obligations")
         return 3
     return 0
